@@ -1,0 +1,120 @@
+//go:build verif
+
+package json
+
+import "strconv"
+
+// Contract for normalizeToIntString (property C22): a JSON number given as
+// sign / integer digits / fraction digits (without trailing zeros) / exponent denotes the
+// rational  intp.frac x 10^exp.  It is an integer exactly when, for exp >= 0, the exponent
+// shifts every fraction digit to the left of the point (len(frac) <= exp), and for exp < 0,
+// there is no fraction and the -exp integer digits shifted to the right of the point are all
+// zero. Its decimal digits are then intp ++ frac ++ zeros, respectively intp without its last
+// -exp digits. The function additionally refuses results of more than 20 digits (no 64-bit
+// integer has more). The spec below is that statement, digit by digit.
+//
+// strconv.ParseInt is an uninterpreted pure function here (the same call in the code and in the
+// spec), with the documented fact that a successful 32-bit parse yields a 32-bit value.
+
+// specExpErr: the exponent text does not parse as a 32-bit integer.
+func specExpErr(n numberParts) bool {
+	if len(n.exp) == 0 {
+		return false
+	}
+	_, err := strconv.ParseInt(string(n.exp), 10, 32)
+	return err != nil
+}
+
+// specExp: the exponent (0 if absent).
+func specExp(n numberParts) int {
+	if len(n.exp) == 0 {
+		return 0
+	}
+	i, _ := strconv.ParseInt(string(n.exp), 10, 32)
+	return int(i)
+}
+
+// specPartsWF: what parseNumberParts produces: a non-empty integer part does not start with 0.
+func specPartsWF(n numberParts) bool {
+	return len(n.intp) == 0 || n.intp[0] != '0'
+}
+
+func specSignLen(n numberParts) int {
+	if n.neg {
+		return 1
+	}
+	return 0
+}
+
+// specIsInteger: the number is an integer of at most 20 digits.
+func specIsInteger(n numberParts, exp int) bool {
+	if exp >= 0 {
+		return len(n.frac) <= exp && len(n.intp)+exp <= 20
+	}
+	if len(n.frac) > 0 || len(n.intp)+exp < 0 {
+		return false
+	}
+	return forall(0, len(n.intp), func(k int) bool { return k < len(n.intp)+exp || n.intp[k] == '0' })
+}
+
+// specIntDigit: k-th digit of the integer.
+func specIntDigit(n numberParts, k int) byte {
+	if k < len(n.intp) {
+		return n.intp[k]
+	}
+	if k < len(n.intp)+len(n.frac) {
+		return n.frac[k-len(n.intp)]
+	}
+	return '0'
+}
+
+//@ props C22
+//@ split
+//@ mode int
+//@ loop 1 invariant 0 <= i && i <= exp-fracSize && len(num) == intpSize+fracSize+i && (freshSlice(num) || cap(num) == len(num))
+//@ loop 1 invariant forallIn(num, 0, len(num), func(k int, e byte) bool { return e == old(specIntDigit(n, k)) })
+//@ loop 1 invariant unchangedElems(n.intp) && unchangedElems(n.frac) && unchangedElems(n.exp)
+//@ loop 2 invariant index <= i && i <= intpSize
+//@ loop 2 invariant forall(0, len(n.intp), func(k int) bool { return k < index || k >= i || n.intp[k] == '0' })
+func contract_normalizeToIntString(n numberParts) (s string, ok bool) {
+	requires(len(n.intp) <= 1<<30 && len(n.frac) <= 1<<30)
+	ensures(imp(len(n.intp) == 0 && len(n.frac) == 0, ok && s == "0"))
+	ensures(imp(len(n.intp)+len(n.frac) > 0 && old(specExpErr(n)), !ok))
+	ensures(imp(len(n.intp)+len(n.frac) > 0 && !old(specExpErr(n)), ok == old(specIsInteger(n, specExp(n)))))
+	ensures(imp(!ok, s == ""))
+	// the digits: optional sign, then the integer digits, the fraction digits, zeros
+	ensures(imp(ok && len(n.intp)+len(n.frac) > 0, len(s) == specSignLen(n)+len(n.intp)+old(specExp(n))))
+	ensures(imp(ok && len(n.intp)+len(n.frac) > 0 && n.neg, s[0] == '-'))
+	ensures(imp(ok && len(n.intp)+len(n.frac) > 0 && !n.neg,
+		forallStr(s, 0, len(s), func(k int, e byte) bool { return e == old(specIntDigit(n, k)) })))
+	ensures(imp(ok && len(n.intp)+len(n.frac) > 0 && n.neg,
+		forallStr(s, 1, len(s), func(k int, e byte) bool { return e == old(specIntDigit(n, k-1)) })))
+	return
+}
+
+// parseNumberParts splits a number text into its parts: it never reads outside the input, the
+// parts are views of the input, the integer part is empty (a lone 0) or starts with 1..9 and
+// consists of digits, and the sign is reported.
+//
+//@ props C22
+//@ mode int
+//@ pure bytes.TrimRight
+//@ loop 1 invariant suffixOf(s, input) && sameBase(intp, input) && 1 <= n && n <= len(intp) && len(intp)-len(s) == n
+//@ loop 1 invariant forallIn(intp, 0, n, func(k int, e byte) bool { return specIsDigit(e) })
+//@ loop 2 invariant suffixOf(s, input) && sameBase(frac, input) && 1 <= n && n <= len(frac) && len(frac)-len(s) == n
+//@ loop 3 invariant suffixOf(s, input) && sameBase(exp, input) && 0 <= n && n <= len(exp) && len(exp)-len(s) == n
+func contract_parseNumberParts(input []byte) (p numberParts, ok bool) {
+	ensures(imp(ok, p.neg == (input[0] == '-')))
+	ensures(imp(ok, specPartsWF(p)))
+	ensures(imp(ok && len(p.intp) > 0, sameBase(p.intp, input) && offsetIn(p.intp, input) == specSignOff(input)))
+	ensures(imp(ok, forallIn(p.intp, 0, len(p.intp), func(k int, e byte) bool { return specIsDigit(e) })))
+	ensures(imp(!ok, len(p.intp) == 0 && len(p.frac) == 0 && len(p.exp) == 0 && !p.neg))
+	return
+}
+
+func specSignOff(input []byte) int {
+	if len(input) > 0 && input[0] == '-' {
+		return 1
+	}
+	return 0
+}
